@@ -13,13 +13,28 @@ ASSUMPTIONS = [
     "named elements is then applied to the copy, one at a time",
     "base netlists: reader-built from the independent writers' texts (EDIF E1/E2/E3, Verilog base, EBLIF B1)",
 ]
-SOURCES = ("edif:E1", "edif:E2", "edif:E3", "edif:E7", "verilog", "eblif:B1")
+SOURCES = ("edif:E1", "edif:E2", "edif:E3", "edif:E7", "edif:E1+api", "verilog", "eblif:B1")
 
 
 def load(src):
     kind, _, which = src.partition(":")
     if kind == "edif":
-        return c05.parse_text(edif_writer.render(fdesigns.BASES[which]())), ".edf"
+        n = c05.parse_text(edif_writer.render(fdesigns.BASES[which.split("+")[0]]()))
+        if which.endswith("+api"):
+            # a netlist read from EDIF (EDIF policy) and then extended through the API, whose new elements are
+            # created under the policy the reader restored
+            s = core.sdn()
+            top = n.top_instance.reference
+            leaf = next(d for l in n.libraries for d in l.definitions if not d.children and d.ports)
+            lib = s.Library(name="api_lib")
+            lib.create_definition(name="api_cell").create_port(name="api_port", pins=1)
+            n.add_library(lib)
+            top.create_cable(name="api_net", wires=1)
+            x = s.Instance(name="api_inst")
+            x.reference = leaf
+            top.add_child(x)
+            top.cables[-1].wires[0].connect_pin(next(iter(x.pins)))
+        return n, ".edf"
     if kind == "verilog":
         vad = c06.base_vad()
         # a never-declared primitive comes back with inout ports (documented): declare it, so that the
@@ -90,6 +105,14 @@ def mutations(n):
                     pr[pi]["value"] = "changed" if pr[pi]["value"] != "changed" else "changed2"
                     x["EDIF.properties"] = pr
                 out.append(("property-value", chg))
+            if props:
+                def cut(x=x, how="last"):
+                    import copy
+                    pr = copy.deepcopy(x["EDIF.properties"])
+                    x["EDIF.properties"] = pr[:-1] if how == "last" else pr[1:] if how == "first" else []
+                out.append(("property-dropped:last", lambda x=x: cut(x, "last")))
+                out.append(("property-dropped:first", lambda x=x: cut(x, "first")))
+                out.append(("property-dropped:all", lambda x=x: cut(x, "all")))
             out.append(("drop-instance", lambda d=d, x=x: (x.__setattr__("reference", None), d.remove_child(x))))
         out.append(("add-port", lambda d=d: d.create_port(name="zz_new", pins=1)))
         out.append(("add-cable", lambda d=d: d.create_cable(name="zz_new", wires=1)))
